@@ -23,7 +23,7 @@ def describe(tier):
                 "format_constraint_evaluation (4 FCs with distinct answers and messages; also with 1-3 of the keys answered by PLAIN evaluate methods next to coroutine "
                 "methods; the zero-yield value is compared with the documented Boolean value), H3 evaluate_ahb_expression_tree (2-3 modal mark parts "
                 "incl. a bare indicator; mixed plain/awaitable list), H4 expand_packages (4 occurrences, two of the same key; and a missing "
-                "package), H5 2-3 concurrent evaluations as tasks each with its own context-local data (also through the library's "
+                "package), H5 2-3 concurrent evaluations as tasks each with its own context-local data (the same expression, and DIFFERENT expressions: one part / several parts / bare indicator / hint only) (also through the library's "
                 "ContentEvaluationResult-based evaluators), H8 the same with packages in each evaluation's own content evaluation result (same package keys, other expressions), H10 one token logic provider "
                 "serving two format versions with different evaluators / hints / packages and concurrent evaluations carrying different versions, H11 user-style evaluators with real evaluate_<key> methods of which some are plain and some suspending coroutine functions (RC and FC; zero-yield value "
                 "compared with the reference), H3 also with parts that raise "
@@ -185,10 +185,15 @@ def h4(params, zero):
     return factory
 
 
+H5_MIXED = ["Muss [2] Kann", "Muss [1] U [501]", "Muss [501]", "X [1][901]", "Soll [2] U [1] Kann [3] Muss", "Muss [1] Soll [2] Kann [501][902]"]
+
+
 def h5(params, zero):
     """concurrent evaluations, each with its own context-local data"""
     n = params["n"]
     expr = ["Muss [1] U [2] U [501]", "Muss [1] U ([2] O [3]) U [501] Soll [2][901]", "Muss [501][901] U [902] Kann [1][901]"][params.get("expr", 0)]
+    # "mixed": the concurrent evaluations work on DIFFERENT expressions (one part / several parts / bare indicator / hint only)
+    exprs = [expr] * n if not params.get("mixed") else [H5_MIXED[(params["mixed"] + i) % len(H5_MIXED)] for i in range(n)]
     datas = []
     for i in range(n):
         rcv = dict(zip(("1", "2", "3"), PERMS[(params["perm"] + 2 * i) % 6]))
@@ -198,7 +203,7 @@ def h5(params, zero):
     def factory(sched):
         async def one(i):
             _I.ENV.set(_env(sched, yields={"*": 0} if zero else None, tag=f"e{i}/", **datas[i]))
-            tree = await _I.parse_expression_including_unresolved_subexpressions(expr)
+            tree = await _I.parse_expression_including_unresolved_subexpressions(exprs[i])
             return _ahb_obs(await _I.evaluate_ahb_expression_tree(tree))
 
         async def main():
@@ -551,6 +556,10 @@ def plan(tier, seed):
     for perm in (0, 3):
         add("H5", {"n": 2, "perm": perm, "expr": 2}, order_bound=b["large_order_bound"] + 1)
     add("H5", {"n": 3, "perm": 0, "expr": 2}, order_bound=b["large_order_bound"])
+    for m in range(1, len(H5_MIXED) + 1):
+        add("H5", {"n": 2, "perm": m % 6, "mixed": m}, order_bound=b["large_order_bound"] + 1)
+    add("H5", {"n": 3, "perm": 1, "mixed": 1}, order_bound=b["large_order_bound"])
+    add("H5", {"n": 3, "perm": 4, "mixed": 4}, order_bound=b["large_order_bound"])
     for e in range(3 if tier == "quick" else 4):
         add("H6", {"expr": e}, order_bound=None if e in (0, 1) else (b["large_order_bound"] if e == 2 else 1))
     for kinds in itertools.product(("sync", "imm", "y1", "y2"), repeat=3):
